@@ -2,11 +2,10 @@ module verifharness
 
 go 1.23.0
 
-require github.com/jeroenrinzema/psql-wire v0.0.0
-
 require (
-	github.com/jackc/pgx/v5 v5.4.3 // indirect
-	github.com/lib/pq v1.10.9 // indirect
+	github.com/jackc/pgx/v5 v5.4.3
+	github.com/jeroenrinzema/psql-wire v0.0.0
+	github.com/lib/pq v1.10.9
 )
 
 replace github.com/jeroenrinzema/psql-wire => /repo
